@@ -133,7 +133,7 @@ Mutate(f, m) ==
     [] m = "delete_code_name_column" -> [f EXCEPT !.columns = @ \ {"compartments.code name"}]
     [] m = "blank_optional_column" -> f                       \* an optional column that is present but empty changes nothing
     [] m = "delete_optional_sheet" -> [f EXCEPT !.sheets = @ \ {"databook pages"}]
-    [] m \in {"databook_delete_table", "databook_unit_mismatch", "databook_unit_mismatch_compartment", "databook_blank_required_values", "databook_unknown_population", "databook_missing_population_row", "databook_legacy_missing_population_row", "databook_delete_state_sheet"} -> [f EXCEPT !.datadefects = @ \cup {m}]
+    [] m \in {"databook_delete_table", "databook_unit_mismatch", "databook_unit_timescale_mismatch", "databook_unit_mismatch_compartment", "databook_blank_required_values", "databook_unknown_population", "databook_missing_population_row", "databook_legacy_missing_population_row", "databook_delete_state_sheet"} -> [f EXCEPT !.datadefects = @ \cup {m}]
     \* ---- timed structures (base "sirt": the immunity of rcv lasts for the duration wane) ----
     [] m = "t_none" -> f
     [] m = "t_timed_rate" -> [f EXCEPT !.timed = @ \cup {"rec"}]
